@@ -36,7 +36,7 @@ type WinScenario struct {
 	Tr    int       `json:"tr"`
 	Cfg   WinCfg    `json:"cfg"`
 	Steps []WinStep `json:"steps"`
-	Free  bool      `json:"free"` // free-running: no gates, adds only, quiesce at the end
+	Free  bool      `json:"free"`  // free-running: no gates, adds only, quiesce at the end
 	Burst bool      `json:"burst"` // free-running with the trigger goroutine held at its gate until every row is in (producer faster than trigger)
 	Flush bool      `json:"flush"`
 }
